@@ -395,6 +395,15 @@ def ite(c, a, b):
         n = not_(c)
         if not ((n[0] == 'cmp' and n[1] in ('!=', '<=', 'notin', 'isnot')) or n[0] in ('or', 'not')):
             return ite(n, b, a)
+    # nested conditionals with a shared arm:  (x if d else y) if c else y  ==  x if (c and d) else y
+    if a[0] == 'ite' and a[3] == b:
+        return ite(nary('and', (c, a[1])), a[2], b)
+    if a[0] == 'ite' and a[2] == b:
+        return ite(nary('and', (c, not_(a[1]))), a[3], b)
+    if b[0] == 'ite' and b[2] == a:
+        return ite(nary('and', (not_(c), not_(b[1]))), b[3], a)
+    if b[0] == 'ite' and b[3] == a:
+        return ite(nary('and', (not_(c), b[1])), b[2], a)
     pairs = _eq_pairs(c)
     if pairs:
         # under the condition the paired terms are equal: if rewriting one side
